@@ -12,7 +12,8 @@ import (
 var h04fUnits = []string{"ns/op", "sec/op", "B/op", "MB/s", "B/s"}
 var h04fBase = []string{"sec/op", "sec/op", "B/op", "B/s", "B/s"}
 var h04fQueries = []string{".unit:ns/op", ".unit:sec/op", ".unit:MB/s", ".unit:B/s", "-.unit:ns/op", ".unit:(ns/op OR B/op)", ".unit:/^ns/", "-.unit:/^MB/", ".unit:/^(sec|B)\\//",
-	".unit:(ns/op OR /^B/)", ".unit:(/s$/)", "-.unit:(/^B/ OR sec/op)", ".unit:/^B\\/o/ OR .unit:MB/s"}
+	".unit:(ns/op OR /^B/)", ".unit:(/s$/)", "-.unit:(/^B/ OR sec/op)", ".unit:/^B\\/o/ OR .unit:MB/s",
+	".unit:/^(MB.s|B.op)$/"}
 
 func h04fWant(q int, written, base string) bool {
 	named := func(n string) bool { return written == n || base == n }
@@ -41,6 +42,8 @@ func h04fWant(q int, written, base string) bool {
 		return false
 	case 12:
 		return written == "B/op" || named("MB/s")
+	case 13: // one alternative matches a written name only, the other a name that is written and base alike
+		return written == "MB/s" || written == "B/op"
 	}
 	return named("ns/op") || named("B/op")
 }
@@ -67,5 +70,17 @@ func H04Filter() {
 		m, _ := f.Match(res)
 		vndAssert(m.Test(0) == h04fWant(q, h04fUnits[u], h04fBase[u]), "unit-filter-by-either-name")
 		vndReach("h04f:matched")
+	}
+	// one result with measurements in several units: each measurement has its own verdict,
+	// whichever name of whichever other measurement matched
+	in := "BenchmarkY 1 2 MB/s 8 B/op 5 ns/op 7 B/s\n"
+	r := benchfmt.NewReader(bytes.NewReader([]byte(in)), "f")
+	if !r.Scan() {
+		panic("no record")
+	}
+	res := r.Result().(*benchfmt.Result)
+	m, _ := f.Match(res)
+	for i, u := range []int{3, 2, 0, 4} { // indices into h04fUnits
+		vndAssert(m.Test(i) == h04fWant(q, h04fUnits[u], h04fBase[u]), "unit-filter-judges-each-measurement-by-its-own-names")
 	}
 }
